@@ -295,7 +295,7 @@ def exception_leaders(exc_table):
     return out
 
 
-def run_block_model(repo, folder, ma_cls, dn_func, de_func, basic_ops, ops, max_paths=6000, exc_table=None):
+def run_block_model(repo, folder, ma_cls, dn_func, de_func, basic_ops, ops, max_paths=6000, exc_table=None, step_budget=None):
     """ops: tuple of K concrete opcodes, one per generic instruction.  -> [ModelPath]
     exc_table=None: determineException is an opaque table (one generic entry / handler).
     exc_table=(T, sizes, assign): determineException and EncodedCatchHandler are *interpreted* over a generic code item
@@ -316,7 +316,8 @@ def run_block_model(repo, folder, ma_cls, dn_func, de_func, basic_ops, ops, max_
               ("c", "truthy", key(mcall(METHOD, "get_code"))): 1}
 
     budget = {"steps": 0, "runs": 0}
-    STEP_BUDGET = 1_500_000      # interpreter steps per scenario (deterministic; the unchanged tree needs < 15 % of it in its largest scenario)
+    # interpreter steps per scenario (deterministic): at least four times what the unchanged tree needs for a scenario of this size
+    STEP_BUDGET = step_budget or (30_000 * len(ops) ** 2 * (3 if exc_table is not None else 1))
 
     def run(asg0):
         budget["runs"] += 1
